@@ -414,6 +414,9 @@ def eig(data, meta=None, sizes=(1, 1), **kwargs):
 
         if any( np.abs(np.sum(_V.T * _U, axis=0) - 1) > tol ):
             raise ValueError("Biorthonormalization of left/right eigenvector pairs failed.")
+        # pairs belonging to a degenerate eigenvalue are not made biorthogonal by a diagonal rescaling
+        if np.any(np.abs(_V @ _U - np.eye(len(S))) > 1e-8):
+            raise ValueError("Biorthonormalization of left/right eigenvector pairs failed (degenerate eigenvalues).")
 
         s_order= eigs_which(S, which=kwargs.get('which', 'LM'))
         Udata[slice(*slU)].reshape(DU)[:] = _U[:,s_order]
